@@ -13,7 +13,8 @@ HARNESS_TIMEOUT = 20
 canon = c02.canon
 nontrivial = c02.nontrivial
 classify = c02.classify
-model_skip = c02.model_skip
+def model_skip(c):
+    return not c.line.startswith(("symtab ", "vmrun "))
 
 NAMES = ["x", "y"]
 
@@ -95,4 +96,31 @@ def cases(ctx):
     for s in gen_lang.programs(rng, ctx.scale(1000, 60000), max_stmts=8):
         srcs.append(s); tags.append("generated")
     lines = lang_lines(ctx, srcs)
-    return [Case(l, (t,), extra={"src": s}) for l, t, s in zip(lines, tags, srcs)]
+    out = [Case(l, (t,), extra={"src": s}) for l, t, s in zip(lines, tags, srcs)]
+    # the symbol-table model against the real SymbolTable, step by step
+    names = ["x", "y", "f"]
+    for _ in range(ctx.scale(4000, 200000)):
+        steps, depth, level = [], 0, 0
+        for _ in range(rng.randint(3, 25)):
+            r = rng.random()
+            n = rng.choice(names)
+            if r < 0.3:
+                steps.append(f"D{n},{depth}")
+            elif r < 0.6:
+                steps.append(f"R{n},{depth}")
+            elif r < 0.7:
+                depth += 1
+            elif r < 0.8 and depth > 0:
+                depth -= 1
+                steps.append(f"L{depth}")
+            elif r < 0.88 and level < 3:
+                steps.append("E"); level += 1
+                if rng.random() < 0.5:
+                    steps.append(f"F{n}")
+                depth = 0 if rng.random() < 0.8 else depth
+            elif r < 0.95 and level > 0:
+                steps.append("X"); level -= 1
+            else:
+                steps.append(f"B{rng.randint(0, 5)},len")
+        out.append(Case("symtab " + ";".join(steps), ("symtab",)))
+    return out
